@@ -317,6 +317,74 @@ def check_layouts(ctx):
     ctx.traces_validated += len(lines) - len(rej)
 
 
+def check_save_walk(ctx, walk):
+    """PersistHist.tla: ONE Measurements object and two paths live through the whole behaviour"""
+    from orquestra.quantum.measurements import Measurements
+
+    out = []
+    first = walk[0]["pre"]["obj"]
+    m = Measurements([tuple(b) for b in first])
+    paths = {1: tmpfile(ctx, "hist-a"), 2: tmpfile(ctx, "hist-b")}
+    hist = ["Measurements(%s)" % first]
+    try:
+        for st in walk:
+            op, a = st["op"], st["a"]
+            if op == "replace":
+                m.bitstrings = [tuple(b) for b in a]
+                hist.append("bitstrings = %s" % a)
+            elif op == "edit":
+                m.bitstrings[a[0]] = tuple(a[1])
+                hist.append("bitstrings[%d] = %s" % (a[0], tuple(a[1])))
+            elif op == "add_counts":
+                m.add_counts({"".join(map(str, a[0])): a[1]})
+                hist.append("add_counts({%r: %d})" % ("".join(map(str, a[0])), a[1]))
+            elif op == "save":
+                m.save(paths[st["p"]])
+                hist.append("save(path %d)" % st["p"])
+            elif op == "load":
+                hist.append("load(path %d)" % st["p"])
+                with open(paths[st["p"]]) as f:
+                    back = Measurements.load_from_file(f)
+                want = [tuple(b) for b in st["res"]]
+                if list(back.bitstrings) != want:
+                    out.append(("history:load", "after [%s]: loaded %s, the object held %s at the last save to that path" % (" ; ".join(hist), list(back.bitstrings), want)))
+                    break
+            if [tuple(b) for b in m.bitstrings] != [tuple(b) for b in st["post"]["obj"]]:
+                out.append(("history:object", "after [%s]: the object holds %s, specification %s" % (" ; ".join(hist), m.bitstrings, st["post"]["obj"])))
+                break
+    finally:
+        for p_ in paths.values():
+            if os.path.exists(p_):
+                os.unlink(p_)
+    return out
+
+
+def check_save_histories(ctx):
+    from ..graph import Graph
+
+    quick = ctx.tier == "quick"
+    depth = 5 if quick else 6
+    res = ctx.tlc("PersistHist", constants=dict(Depth=depth, Stale=False, Emitting=True), invariants=["LoadReturnsLastSaved", "LoadedIsWhatWasSaved"], constraints=["DepthBound"], action_constraints=["Emit"], view="View", workers=4, coverage=False, timeout=1800)
+    r2 = ctx.tlc("PersistHist", constants=dict(Depth=5, Stale=True, Emitting=False), invariants=["LoadReturnsLastSaved"], constraints=["DepthBound"], view="View", workers=2, coverage=False, timeout=600, allow_violation=True)
+    if "LoadReturnsLastSaved" not in r2.violated:
+        raise TLCError("vacuity: a writer reusing previously serialised rows is not refuted")
+    edges = res.emitted
+    if len(edges) < 1000:
+        raise TLCError("PersistHist exported only %d transitions" % len(edges))
+    rng = random.Random(ctx.seed + 21)
+    walks = []
+    for init in ([], [[0, 1], [1, 1]]):
+        g = Graph([dict(e) for e in edges], {"obj": init, "file": [{"none": True, "rows": []}, {"none": True, "rows": []}]})
+        walks += [w for w in g.walks(rng, limit=1500 if quick else 15000, select=lambda e: e["op"] == "load") if len(w) >= 3]
+    if len(walks) < 300:
+        raise TLCError("only %d save/load histories assembled" % len(walks))
+    ctx.bounds["save histories"] = "one measurement set, two paths, <= %d steps: replace / edit in place / add_counts / save / load" % (depth - 1)
+    for w, fails in zip(walks, ctx.pmap(check_save_walk, walks, chunksize=16)):
+        ctx.count({"k": "save-history", "ops": [(e["op"], e["p"]) for e in w]}, kind="save history of %d steps" % len(w))
+        for key, msg in fails:
+            ctx.violation(key, msg, {"k": "save-walk", "walk": [{k: v for k, v in e.items() if not k.startswith("_")} for e in w]})
+
+
 def run(ctx):
     res = ctx.tlc("Persist", constants=dict(AcceptBareI=True, OptionalFrameMeas=True, Emitting=True), invariants=INV, action_constraints=["Emit"], workers=4, coverage=False, timeout=1200)
     for consts, inv, what in ((dict(AcceptBareI=False, OptionalFrameMeas=True), "ReprParseDenotes", "a parser that rejects the bare I of a printed constant term"), (dict(AcceptBareI=True, OptionalFrameMeas=False), "LoadAfterSaveEqual", "a loader that requires the optional frame measurements")):
@@ -333,12 +401,18 @@ def run(ctx):
         for key, msg in fails:
             ctx.violation(key, msg, c)
     check_literals(ctx)
+    check_save_histories(ctx)
     check_layouts(ctx)
     ctx.judged_numerically.append("the concrete decimal text Python prints for a float is outside TLA+: TLC works on coefficient classes, the harness maps them to four families of literals and adds a list of special literals (exponent format, negative zero, purely imaginary, bracketed complex)")
     ctx.assumptions.append("coefficients have magnitude below 1e15 (above, Python prints 'e+' and the sum splitter of the parser cuts the literal)")
 
 
 def replay(ctx, case):
+    if case.get("k") == "save-walk":
+        ctx.count({"k": "save-history"})
+        for key, msg in check_save_walk(ctx, case["walk"]):
+            ctx.violation(key, msg, case)
+        return
     if case.get("k") == "literal":
         check_literals(ctx)
         return
